@@ -45,6 +45,16 @@ fn mk(start: (f64, f64)) -> (Arc<RealVectorStateSpace>, Arc<ProblemDefinition<Re
     let pd = Arc::new(ProblemDefinition { space: space.clone(), start_states: vec![RealVectorState { values: vec![start.0, start.1] }], goal });
     (space, pd)
 }
+struct PointGoal { target: RealVectorState, space: Arc<RealVectorStateSpace> }
+impl Goal<RealVectorState> for PointGoal {
+    fn is_satisfied(&self, s: &RealVectorState) -> bool { self.space.distance(s, &self.target) <= 1e-9 }
+}
+impl GoalRegion<RealVectorState> for PointGoal {
+    fn distance_goal(&self, s: &RealVectorState) -> f64 { self.space.distance(s, &self.target) }
+}
+impl GoalSampleableRegion<RealVectorState> for PointGoal {
+    fn sample_goal(&self, _rng: &mut impl Rng) -> Result<RealVectorState, StateSamplingError> { Ok(self.target.clone()) }
+}
 fn main() {
     let which = std::env::args().nth(1).unwrap_or_default();
     let free = || Arc::new(Checker(|_x: f64, _y: f64| true));
@@ -70,6 +80,28 @@ fn main() {
             match p.solve(Duration::from_secs(5)) {
                 Ok(path) => println!("RRTConnect: Ok, first state {:?} valid={}", path.0[0], vc.is_valid(&path.0[0])),
                 Err(e) => println!("RRTConnect: Err {:?}", e),
+            }
+        }
+        "c01_endpoint" => {
+            // the motion check asks about interpolate(from, to, 1.0), which is one ulp away from `to`; `to` is what is stored
+            let space = Arc::new(RealVectorStateSpace::new(2, Some(vec![(0.0, 1.0), (0.0, 1.0)])).unwrap());
+            let goal = Arc::new(PointGoal { target: RealVectorState { values: vec![0.3, 0.5] }, space: space.clone() });
+            let pd = Arc::new(ProblemDefinition { space: space.clone(), start_states: vec![RealVectorState { values: vec![0.8, 0.5] }], goal });
+            let vc = Arc::new(Checker(|x: f64, _y: f64| x > 0.3));
+            let mut out = RealVectorState { values: vec![0.0, 0.0] };
+            space.interpolate(&pd.start_states[0], &RealVectorState { values: vec![0.3, 0.5] }, 1.0, &mut out);
+            println!("interpolate(start, goal, 1.0) = {:?} (valid={}), goal itself valid={}", out, vc.is_valid(&out), vc.is_valid(&RealVectorState { values: vec![0.3, 0.5] }));
+            let mut p = RRT::new(1.0, 1.0, &PlannerConfig { seed: Some(1) });
+            p.setup(pd.clone(), vc.clone());
+            match p.solve(Duration::from_secs(2)) {
+                Ok(path) => { let l = path.0.last().unwrap(); println!("RRT: Ok, last state {:?} valid={}", l, vc.is_valid(l)) }
+                Err(e) => println!("RRT: Err {:?}", e),
+            }
+            let mut p = RRTStar::new(1.0, 1.0, 1.5, &PlannerConfig { seed: Some(1) });
+            p.setup(pd.clone(), vc.clone());
+            match p.solve(Duration::from_secs(2)) {
+                Ok(path) => { let l = path.0.last().unwrap(); println!("RRT*: Ok, last state {:?} valid={}", l, vc.is_valid(l)) }
+                Err(e) => println!("RRT*: Err {:?}", e),
             }
         }
         "c07_connect" => {
